@@ -1180,6 +1180,7 @@ class InterpExpr:
         if not ok:
             raise Unsupported(f'{obj.cls}.{attr}: constructor value is not a constant expression')
         return self.ev(v, Frame(None, init.module, {}, None, init.cls))
+
     def _has_fun(self, ty, inner=False):
         """the declared type holds callables / classes (Callable, Type, or an untyped element of a container)"""
         if isinstance(ty, TFun) or (inner and ty == ANY):
@@ -1187,7 +1188,6 @@ class InterpExpr:
         return any(self._has_fun(x, True) for x in (getattr(ty, 't', None), getattr(ty, 'k', None), getattr(ty, 'v', None))
                    if isinstance(x, Ty))
 
-    def class_const(self, cc):
     def class_heap_attr(self, dc, name):
         """mutable class-level attribute declared in shapes.CLASS_HEAP_ATTRS: ONE heap object shared by every access
         (python evaluates the class body once), allocated before the function under proof starts, contents unknown"""
